@@ -334,3 +334,20 @@ impl<T: RefCnt, S: Strategy<T>> Deref for Guard<T, S> {''')]),
     dict(name='b-docs-and-comments', kind='benign', props=ALL, expect=[],
          edits=[(H, '        // Relaxed is good enough here, see the Acquire below\n', '        // Relaxed is good enough here, see the Acquire below.\n        //\n        // (A longer explanation that moves every following line down by three.)\n')]),
 ]
+
+CASES += [
+    dict(name='m-pay-weak-cas', kind='mutant', props=['C02', 'C12'], expect=['C02'],
+         edits=[(M, '.compare_exchange(ptr as usize, Self::NONE, Release, Relaxed)', '.compare_exchange_weak(ptr as usize, Self::NONE, Release, Relaxed)')]),
+    dict(name='m-slot-after-idle', kind='mutant', props=['C01', 'C03'], expect=['C01'],
+         edits=[(HP, '''        let prev = self.slot.0.swap(ptr, SeqCst);
+        debug_assert_eq!(Debt::NONE, prev);
+''', ''), (HP, '''        let control = self.control.swap(IDLE, SeqCst);
+        if control == gen {''', '''        let control = self.control.swap(IDLE, SeqCst);
+        let prev = self.slot.0.swap(ptr, SeqCst);
+        debug_assert_eq!(Debt::NONE, prev);
+        if control == gen {''')]),
+    dict(name='b-protect-confirm-value', kind='benign', props=ALL, expect=[],
+         edits=[(H, '''            Some(unsafe { Self::new(ptr, Some(debt)) })
+        } else if''', '''            Some(unsafe { Self::new(confirm, Some(debt)) })
+        } else if''')]),
+]
